@@ -545,14 +545,43 @@ func (obj *Package) Unexport(name string) {
 func (obj *Package) Undefine(name string) {
 	name = strings.ToLower(name)
 	obj.mu.Lock()
-	if obj.funcs != nil {
-		delete(obj.funcs, name)
-	}
+	fi := obj.funcs[name]
+	delete(obj.funcs, name)
+	users := append([]*Package{}, obj.Users...)
 	obj.mu.Unlock()
+	if fi != nil && fi.Pkg == obj {
+		retract(users, name, nil, fi)
+	}
 	pname := fmt.Sprintf("%s:%s", obj.Name, name)
 	for _, h := range unsetHooks {
 		h.fun(obj, name)
 		h.fun(obj, pname)
+	}
+}
+
+// retract removes the entries for name that refer to vv or fi from the
+// packages, and from the packages that use them, so that no package keeps
+// seeing a definition that has been removed or is no longer exported. Imports
+// are not affected.
+func retract(users []*Package, name string, vv *VarVal, fi *FuncInfo) {
+	for _, u := range users {
+		hit := false
+		u.mu.Lock()
+		if u.Imports[name] == nil {
+			if vv != nil && vv.Pkg != u && u.vars[name] == vv {
+				delete(u.vars, name)
+				hit = true
+			}
+			if fi != nil && fi.Pkg != u && u.funcs[name] == fi {
+				delete(u.funcs, name)
+				hit = true
+			}
+		}
+		next := append([]*Package{}, u.Users...)
+		u.mu.Unlock()
+		if hit {
+			retract(next, name, vv, fi)
+		}
 	}
 }
 
